@@ -270,3 +270,91 @@ def gen_plan(run_seed, prop, tier="quick", faults=True):
         g.ops.append(op)
     plan["ops"] = g.ops
     return plan
+
+
+# ------------------------------------------------------------- crash-site sweeps (DESIGN 3, 4)
+def gen_sweep_base(run_seed, prop, tier="quick", target_cls=None):
+    """A short history whose op `target` is to be cut by an injected exception at many different
+    line events, followed by probe operations on fresh objects that must still equal their
+    references (process-global isolation after a crash)."""
+    import random
+    rng = random.Random(run_seed)
+    hp = HASH_POOL_QUICK if tier == "quick" else HASH_POOL_THOROUGH
+    hs = rng.sample(hp, 3)
+    knobs = {"p_corpus": 0.5, "p_repeat_doc": 0.0, "p_multilang": 0.5}
+    g = Gen(rng, prop, tier)
+    ops = []
+
+    def read_op(fmt, via="fresh"):
+        h = g.new_handle()
+        op = {"kind": "read", "cls": docs.READER_OF[fmt], "ctor": reader_ctor(rng, fmt), "call": reader_call(rng, fmt),
+              "via": via, "doc": g.choose_doc(fmt, knobs), "out": h, "session": 0}
+        return op
+
+    def build_op():
+        h = g.new_handle()
+        rec = docs.gen_recipe(rng, abs_units=rng.random() < 0.3, unbalanced=rng.choice([0.0, 0.0, 0.5]),
+                              scc_safe=rng.random() < 0.3)
+        return {"kind": "build", "recipe": rec, "out": h, "session": 0}
+
+    target_is_write = (prop == "C09") if rng.random() < 0.8 else (prop != "C09")
+    if target_cls is not None:
+        target_is_write = target_cls in WRITERS
+    # two live sets exist before the crash
+    first = build_op() if rng.random() < 0.4 else read_op(rng.choice(FORMATS))
+    second = build_op() if rng.random() < 0.3 else read_op(rng.choice(FORMATS))
+    ops += [first, second]
+    # a canonical plain set (no styles, no layouts: writers fall back to their module-level defaults)
+    plain = {"kind": "read", "cls": "SRTReader", "ctor": {}, "call": {}, "via": "fresh",
+             "doc": {"inline": "1\n00:00:01,000 --> 00:00:02,000\nplain probe\n"}, "out": g.new_handle(), "session": 0}
+    ops.append(plain)
+    if target_is_write:
+        w = target_cls or rng.choice(WRITERS)
+        ctor = writer_ctor(rng, w)
+        if rng.random() < 0.6 and w != "LegacyDFXPWriter":
+            ctor.setdefault("video_width", 640)
+            ctor.setdefault("video_height", 360)
+        target = {"kind": "write", "cls": w, "ctor": ctor, "call": {}, "via": "fresh", "in": first["out"], "session": 0}
+    else:
+        fmt = rng.choice(FORMATS)
+        if target_cls is not None:
+            fmt = [f for f in FORMATS if docs.READER_OF[f] == target_cls][0]
+        target = read_op(fmt, via="pool:r_target" if rng.random() < 0.5 else "fresh")
+    ops.append(target)
+    t = len(ops) - 1
+    # probes on fresh objects, in a second session
+    probes = []
+    wl = list(WRITERS)
+    rng.shuffle(wl)
+    nw = 4 if tier == "quick" else 8
+    if target_is_write and target["cls"] not in wl[:nw]:
+        wl = [target["cls"]] + wl
+    for w in wl[:nw]:
+        kw = {"video_width": 640, "video_height": 360} if (w != "LegacyDFXPWriter" and rng.random() < 0.7) else {}
+        probes.append({"kind": "write", "cls": w, "ctor": kw, "call": {}, "via": "fresh",
+                       "in": rng.choice([first["out"], second["out"], plain["out"]]), "session": 1})
+    if target_is_write:
+        # the crashed writer's own class, fresh object, on the plain set and on the crashed write's input
+        for src in (plain["out"], first["out"]):
+            probes.append({"kind": "write", "cls": target["cls"], "ctor": {}, "call": {}, "via": "fresh", "in": src, "session": 1})
+    fl = list(FORMATS)
+    rng.shuffle(fl)
+    nr = 3 if tier == "quick" else 6
+    if not target_is_write:
+        same = dict(target)
+        same = {k: v for k, v in same.items()}
+        same["via"] = "fresh"
+        same["out"] = g.new_handle()
+        same["session"] = 1
+        probes.append(same)
+    for fmt in fl[:nr]:
+        op = read_op(fmt)
+        op["session"] = 1
+        probes.append(op)
+    if prop == "C10":
+        k, a = gen_edit(rng, EDIT_KINDS)
+        probes.append({"kind": "edit", "edit": k, "args": a, "in": second["out"], "session": 1})
+    rng.shuffle(probes)
+    ops += probes
+    return {"property": prop, "run_seed": run_seed, "hash_seeds": {"history": hs[0], "ref": hs[1:]}, "ops": ops,
+            "sweep": {"target": t}}
